@@ -17,7 +17,7 @@ func line(off time.Duration, level, msg, js string) string {
 }
 
 func appr(off time.Duration, id int, h uint32, hash string) string {
-	return line(off, "INFO", "approving block", fmt.Sprintf(`{"id": %d, "height": %d, "hash": "%s", "tx_count": 1}`, id, h, hash))
+	return line(off, "INFO", "approving block", fmt.Sprintf(`{"id": %d, "height": %d, "hash": "%s", "tx_count": 1, "prev": "aa%02d"}`, id, h, hash, h-1))
 }
 
 // good builds a fault-free log: n nodes (count validators), one block every gap.
@@ -91,6 +91,9 @@ func TestOracles(t *testing.T) {
 		}},
 		{"repeat", "noncontiguous:repeat", func(s string) string {
 			return strings.Replace(s, `"id": 4, "height": 3, "hash": "aa03"`, `"id": 4, "height": 2, "hash": "aa02"`, 1)
+		}},
+		{"broken chain", "broken-chain", func(s string) string {
+			return strings.Replace(s, `"id": 3, "height": 4, "hash": "aa04", "tx_count": 1, "prev": "aa03"`, `"id": 3, "height": 4, "hash": "aa04", "tx_count": 1, "prev": "cc03"`, 1)
 		}},
 		{"watcher sends", "watcher-sent", func(s string) string {
 			return s + line(time.Second, "INFO", "sending Commit", `{"id": 4}`)
